@@ -56,7 +56,7 @@ def run(prop, tier, replay, Ctx):
     p = subprocess.run([exe, "--property", prop, "--tier", tier, "--out", out], env=env)
     if p.returncode != 0 or not os.path.exists(out):
         raise Ctx.Machinery("h_life_void exited with %s and no report" % p.returncode)
-    with open(out) as f:
+    with open(out, encoding="utf-8", errors="replace") as f:
         rep = json.load(f)
     # the sections are the same as those of the default-feature run: tag them
     for s in rep["coverage"].get("sections", []):
